@@ -62,8 +62,8 @@ const DICT: [&str; 64] = [
     "int", "float", "string", "var", "const", "void", "script", "entry", "meta", "goto", "interrupt[", "times(", "break", "return",
 ];
 
-fn tokens(text: &str) -> Vec<(usize, usize)> {
-    let b = text.as_bytes(); let mut out = vec![]; let mut i = 0;
+fn tokens(b: &[u8]) -> Vec<(usize, usize)> {
+    let mut out = vec![]; let mut i = 0;
     while i < b.len() {
         let c = b[i];
         if c.is_ascii_whitespace() { i += 1; continue; }
@@ -85,7 +85,7 @@ fn find_all(hay: &[u8], needle: &[u8]) -> Vec<usize> {
 
 fn mutate_text(src: &[u8], rng: &mut Rng) -> (&'static str, String, Vec<u8>) {
     let text = String::from_utf8_lossy(src).to_string();
-    let toks = tokens(&text);
+    let toks = tokens(src);
     let mut m = src.to_vec();
     let n = m.len().max(1);
     match rng.below(16) {
